@@ -94,6 +94,7 @@ def check_refusal(rep, mod):
 
     def factory(ctx):
         s_, _ = contracts.wrapper_summaries(mod, ctx)
+        s_.pop(iz, None)          # isZero itself is under analysis here
         return s_
 
     def setup(summ, opts):
@@ -107,7 +108,15 @@ def check_refusal(rep, mod):
                                          'isZero(x) is exactly "x = 0 (mod p)" (a function of the canonical value only): both representations 0 and p are refused'
                                          if good else 'isZero is not the residue test x = 0 (mod p): %r' % (leaves,))
     except (Incomplete, IRError) as e:
-        rep.incomplete('refusal:guard-residue', 'R-MUSTEXIT', site_of(mod, iz), str(e))
+        if 'outside a contracted kernel' in str(e) or 'data-dependent comparison on field values' in str(e):
+            # isZero compares the raw word: decided on exact integers for all 64-bit representations
+            from .. import kprove, kcheck
+            smod_ = front.module('avx2', sroa=True)
+            r = kprove.prove_predicate(smod_, smod_.find('Goldilocks::isZero(%s const&)' % E), 1, [(0, 0, 'a', 'u64')], lambda A: A['a'])
+            kcheck.record(rep, 'refusal:guard-residue', 'R-MUSTEXIT', site_of(mod, iz), r,
+                          'isZero on raw representations is the residue test x = 0 (mod p): both 0 and p are refused')
+        else:
+            rep.incomplete('refusal:guard-residue', 'R-MUSTEXIT', site_of(mod, iz), str(e))
     # singleton abstract values 0 and p: constant propagation reaches exit() with result untouched
     for rep_val in (0, P):
         ctx = contracts.Ctx()
@@ -221,6 +230,9 @@ def check_inv_invariant(rep, mod):
             return r_
         return None
     opts = {'decide': decide, 'symbolic_binop': symbinop,
+            # cofactors kept in a wider signed type and narrowed at the end: the residue is what the invariant speaks about
+            # (a narrowing that loses bits would show in the singleton tier)
+            'symbolic_trunc': (lambda I_, x, ws, wd: x),
             'summ_re': [(re.compile(r'^_ZStls|^_ZNSolsE|^_ZNSo'), lambda I_, a, i: a[0])]}
     I = Interp(mod, summ, opts)
     rin = Region('in1', 'param', extent=8, elem='field')
@@ -306,6 +318,8 @@ def check_inv_invariant(rep, mod):
                 return 0 <= v < P
             if isinstance(v, Poly) and v.key() in urems:
                 return True           # r % newr is an integer in [0, newr), hence below p
+            if isinstance(v, Poly) and len(qops) == 1 and v == as_poly(qops[0][0]) - Q * as_poly(qops[0][1]):
+                return True           # r - (r / newr) * newr in plain integers: the same remainder (division lemma)
             if isinstance(v, Poly):
                 vs = list(v.vars())
                 return len(vs) == 1 and vs[0].startswith('canon{') and v == Poly.var(vs[0])
@@ -317,12 +331,23 @@ def check_inv_invariant(rep, mod):
         else:
             rep.ok('inv:euclid', 'R-EUCLID', site, "r0 = p, newr0 = canonical(a) in (0,p), q = floor(r/newr), (r', newr') = (newr, canonical(r - q*newr)) = (newr, r mod newr): "
                    'newr strictly decreases (ranking function), gcd(r, newr) is invariant, so the loop ends with r = gcd(p, a) = 1 and result*a = 1 (mod p)')
-        # exit: the result is t
+        # exit: the result is t (a sign test on a signed cofactor - `if (t < 0) t += p` - is explored both ways)
         forced[Poly.var('NR').key()] = True
-        I.writes = []
-        kind, rv, env4 = I.run_fragment(name, dict(env2), hdr, prev=None, skip_phis=True, stop_at=None)
-        got = I.mem.get((rout, 0))
-        ok = kind == 'ret' and got is not None and res(ctx, got[0]) == T
+        ok = True
+        got = None
+        for sgn in (False, True):
+            sign_seen = [False]
+            opts['decide'] = (lambda pred, a, b, sgn=sgn, base=decide: (sign_seen.__setitem__(0, True) or (sgn if pred in ('slt', 'sle') else (not sgn)))
+                              if (pred in ('slt', 'sle', 'sgt', 'sge') and (as_poly(a) - as_poly(b)).vars() <= {'T', 'NT'} and (as_poly(a) - as_poly(b)).vars()) else base(pred, a, b))
+            I.opts['decide'] = opts['decide']
+            I.writes = []
+            I.mem.pop((rout, 0), None)
+            kind, rv, env4 = I.run_fragment(name, dict(env2), hdr, prev=None, skip_phis=True, stop_at=None)
+            got = I.mem.get((rout, 0))
+            ok = ok and kind == 'ret' and got is not None and res(ctx, got[0]) == T
+            if not sign_seen[0]:
+                break
+        I.opts['decide'] = decide
         (rep.ok if ok else rep.refute)('inv:exit', 'loop-invariant', site,
                                        'on exit (newr = 0) the result is t, hence result*a = r (mod p) with r the last non-zero remainder' if ok
                                        else 'on exit the result is %s, not t' % (got,))
